@@ -16,7 +16,7 @@ RULE = ("Generated operation sequences (<= 25 steps) over an Images manifest who
         "Images.images after every step. Separate sub-checks: hand-built documents containing a colliding pair at versions "
         "1.0/1.1/1.2/2.0, and identify_image(object) == identify_image(serialised dict) == independently recomputed tuple. "
         "Non-trivial = history with >= 1 refused add and >= 1 accepted add of an equal-identity/equal-checksum image; "
-        "distinct = SHA-1 of the operation sequence. The raw mapping (empty cells included) is compared around refused adds; 'dumps' without replacing the object moves it to the current version mid-history.")
+        "distinct = SHA-1 of the operation sequence. The raw mapping (empty cells included) is compared around refused adds; 'dumps' without replacing the object moves it to the current version mid-history. Histories continue on manifests read through the 1.0 / 1.1 readers, identity attributes of objects the manifest already knows are re-bound, and identify_image is asked again after a change.")
 ASSUMPTIONS = ["cells use valid binary arches only (C10 covers refused arches)"]
 FLOORS = {"history": 60, "history:refused-add": 100, "load-collision": 100}
 
